@@ -1,6 +1,6 @@
 (* Step-level facts about Model/Core.v for the data part: every answered request is related
    to the map specification. *)
-From WB Require Import Base.Str Base.StrFacts Base.Json Base.JsonFacts Model.Key Model.Store Model.Match
+From WB Require Import Base.Str Base.StrFacts Base.Json Base.JsonFacts Model.Key Model.Consts Model.Store Model.Match
   Model.Subs Model.Entry Model.Core Spec.MapSpec
   Proofs.StoreFacts Proofs.TreeInv Proofs.GoodNames Proofs.MergeFacts Proofs.MatchFacts.
 
@@ -217,6 +217,29 @@ Qed.
 Definition good_import (other : node entry) : Prop :=
   wfn other /\ goodn other /\ nval other = None.
 
+Lemma names_filter {V} (f : str * node V -> bool) cs : forall x, In x (names (filter f cs)) -> In x (names cs).
+Proof.
+  unfold names. intros x H. apply in_map_iff in H as (kc & <- & Hin). apply filter_In in Hin as (Hin & _). apply in_map_iff. now exists kc.
+Qed.
+
+Lemma NoDup_names_filter {V} (f : str * node V -> bool) cs : NoDup (names cs) -> NoDup (names (filter f cs)).
+Proof.
+  unfold names. induction cs as [|kc cs IH]; intros H; [constructor|]. cbn [map] in H. apply NoDup_cons_iff in H as (H1 & H2).
+  cbn [filter]. destruct (f kc); [|now apply IH]. cbn [map]. constructor; [|now apply IH].
+  intros Hin. apply H1. exact (names_filter f cs _ Hin).
+Qed.
+
+(* Store::merge strips $SYS from what it is given (repair of F29) *)
+Lemma good_import_strip other : good_import other -> good_import (strip_sys s_SYS other).
+Proof.
+  destruct other as [v cs]. intros (Hw & Hg & Hv). unfold strip_sys. cbn [nval nkids] in *.
+  apply wfn_unfold in Hw as (Hnd & Hall). apply goodn_unfold in Hg. unfold good_import. split; [|split].
+  - apply wfn_unfold. split; [now apply NoDup_names_filter|].
+    apply Forall_forall. intros x Hx. apply filter_In in Hx as (Hx & _). rewrite Forall_forall in Hall. now apply Hall.
+  - apply goodn_unfold. apply Forall_forall. intros x Hx. apply filter_In in Hx as (Hx & _). rewrite Forall_forall in Hg. now apply Hg.
+  - exact Hv.
+Qed.
+
 Lemma nval_merge n other : nval other = None -> nval (merge n other) = nval n.
 Proof.
   destruct other as [ov ocs]. cbn [nval]. intros ->. rewrite merge_unfold. cbn zeta.
@@ -251,14 +274,15 @@ Lemma do_import_effect s j :
   let r := do_import s j in
   match o_res (snd r) with
   | RImported _ => exists other, dec_persisted j = Some other /\ Inv (fst r) /\
-                                 meq (abs (fst r)) (m_import (abs s) other)
+                                 meq (abs (fst r)) (m_import (abs s) (strip_sys s_SYS other))
   | RErr _ => fst r = s
   | _ => False
   end.
 Proof.
   intros HI Hgood. pose proof HI as (Hw & Hc & Hg & Hr). unfold do_import.
-  destruct (dec_persisted j) as [other|] eqn:Ed; [|reflexivity].
-  destruct (Hgood other eq_refl) as (Hwo & Hgo & Hro).
+  destruct (dec_persisted j) as [other0|] eqn:Ed; [|reflexivity].
+  cbv zeta. set (other := strip_sys s_SYS other0).
+  destruct (good_import_strip other0 (Hgood other0 eq_refl)) as (Hwo & Hgo & Hro). fold other in Hwo, Hgo, Hro.
   unfold insertions.
   set (s' := set_data s _ _).
   destruct (notify_imported_ok s' (data s) (entries other [])) as (evs & Hn).
@@ -266,7 +290,7 @@ Proof.
     apply (collect_spec other [] [Multi] q e Hwo) in Hin as (k & -> & Hl & _). cbn [app]. split.
     - intros ->. rewrite lookup_nil in Hl. congruence.
     - exact (lookup_good _ _ _ Hgo Hl). }
-  rewrite Hn. cbn [snd fst o_res]. exists other. split; [reflexivity|]. split.
+  rewrite Hn. cbn [snd fst o_res]. exists other0. split; [reflexivity|]. split.
   - subst s'. repeat split; cbn [data set_data].
     + exact (proj1 (merge_spec other (data s) [] Hw Hwo)).
     + now apply cleann_merge.
